@@ -186,7 +186,7 @@ Lemma expand_env_tok_ok W t t' : tok_ok W t t' -> expand_env_tok W t = t'.
 Proof.
   intros H. destruct H as [s|s H36 H96|ps Hwf Hg H96 Hdp].
   - apply expand_env_tok_quoted. left. reflexivity.
-  - unfold expand_env_tok. cbn [fst snd]. rewrite (env_in_token_no_dollar s H36). reflexivity.
+  - unfold expand_env_tok. cbn [fst snd]. rewrite (tagged_gate_no_dollar s _ H36). reflexivity.
   - apply expand_env_tok_den; [exact Hwf | exact Hg | discriminate | discriminate].
 Qed.
 
@@ -202,7 +202,7 @@ Lemma expand_env_inert W (cmd : str) l l' :
 Proof.
   intros Hc Hl. pose proof (expand_env_forall2 _ _ _ Hl) as E. rewrite expand_env_map in *.
   cbn [map]. rewrite E. unfold expand_env_tok. cbn [fst snd].
-  rewrite (env_in_token_no_dollar cmd Hc). reflexivity.
+  rewrite (tagged_gate_no_dollar cmd _ Hc). reflexivity.
 Qed.
 
 (* ------------------------------------------------------------------ 4: what expand_env leaves behind *)
